@@ -81,6 +81,16 @@ Theorem C20_mock_panic_iff_any_history : forall ops k,
   run new_display ops = Panic k <-> ref_run (RS false false []) ops = Panic k.
 Proof. exact mock_panic_iff_any. Qed.
 
+(* MockDisplay implements ONLY draw_iter (gen_mock.py refuses a source whose `impl DrawTarget for MockDisplay` has any other
+   method): the fills and clear are the trait defaults, i.e. draw_iter over the row-major points of the area, so every
+   pixel of a fill goes through draw_pixel's checks *)
+Theorem C20_only_draw_iter : forall d,
+  DRAWTARGET_ONLY_DRAW_ITER = true /\
+  (forall r c, apply_op d (OpFillSolid r c) = draw_iter d (map (fun p => (p, c)) (points r))) /\
+  (forall r cs, apply_op d (OpFillContiguous r cs) = draw_iter d (zip (points r) cs)) /\
+  (forall c, apply_op d (OpClear c) = draw_iter d (map (fun p => (p, c)) (points (R (P 0 0) (S SIZE SIZE))))).
+Proof. exact only_draw_iter. Qed.
+
 Theorem C20_only_documented_panics : forall d o k,
   apply_op d o = Panic k -> k = POutOfBounds \/ k = POverdraw \/ k = PSetPixel.
 Proof. exact apply_op_panic_kind. Qed.
